@@ -3,8 +3,9 @@
 //! Answers are `(ok <Debug text>)`, `(err <kind> <offset>)` or `(panic)`; fields of one answer line are
 //! separated by TAB (Debug text never contains a raw TAB or newline: `{:?}` escapes them).
 //!
-//!   top     <k> <hex src>          parse_starts_at / lexer::lex_starts_at for the three modes (pre-pass)
-//!   entries <k> <hex src> [..]     every parsing entry point at offset 0 and at offset k
+//!   top     <k> <hex src>          parse_starts_at / parser on the unfiltered stream / lexer::lex_starts_at
+//!                                  for the three modes (pre-pass: the values of the model's parameters)
+//!   entries <k> <hex src> [full-lexer 0/1, checked] [..]     every parsing entry point at offset 0 and at offset k
 //!   lexes   <k> <hex src> [..]     every lexing entry point at offset 0 and at offset k
 //!   names                          the typed parsers this binary dispatches to, in order
 //!   modes   <hex name>...          Mode::from_str on each candidate
@@ -215,6 +216,23 @@ fn handle(ws: &[&str]) -> String {
                     show(guard(|| rustpython_parser::parse_starts_at(&src, mode_of(m), PATH, off)))
                 ));
             }
+            // the parser run on the UNFILTERED stream of the public lexer (differs from the above only
+            // under full-lexer, when the text has comments / blank lines)
+            out.push(format!(
+                "rm={}",
+                show(guard(|| ast::ModModule::parse_tokens(lexer::lex_starts_at(&src, Mode::Module, off), PATH)
+                    .map(ast::Mod::Module)))
+            ));
+            out.push(format!(
+                "re={}",
+                show(guard(|| ast::ModExpression::parse_tokens(lexer::lex_starts_at(&src, Mode::Expression, off), PATH)
+                    .map(ast::Mod::Expression)))
+            ));
+            out.push(format!(
+                "ri={}",
+                show(guard(|| ast::ModInteractive::parse_tokens(lexer::lex_starts_at(&src, Mode::Interactive, off), PATH)
+                    .map(ast::Mod::Interactive)))
+            ));
             for m in MODES {
                 out.push(format!("lex.{}={}", m, show_lex(lexer::lex_starts_at(&src, mode_of(m), off))));
             }
@@ -225,6 +243,11 @@ fn handle(ws: &[&str]) -> String {
                 (Ok(k), Some(s)) => (k, s),
                 _ => return "bad-request".into(),
             };
+            if let Some(full) = ws.get(3) {
+                if (*full == "1") != cfg!(feature = "full-lexer") {
+                    return "bad-config".into();
+                }
+            }
             let mut out = Vec::new();
             out.push("@0".to_string());
             if ws[0] == "entries" {
